@@ -1,16 +1,27 @@
-"""genx_seq.py — rules of src/Array.c the capacity lemmas of C04 rely on, re-extracted on every run.
+"""genx_seq.py — the capacity POLICY of src/Array.c, re-read on every run and handed to the C04 models
+as parameters (the theorems hold for every admissible policy: new capacity >= items).
 
-  Array_Reserve_More:  if (a->nitems > a->nslots) { a->nslots = a->nitems + a->nitems / 2; ...realloc... }
-  Array_Reserve_Less:  if (a->nslots > a->nitems + a->nitems / 2) { a->nslots = a->nitems; ...realloc... }
+Array_Reserve_More / Array_Reserve_Less are run symbolically over a small statement language:
+    if (<cond>) { ... } [else { ... }]      return;      a->nslots = <expr>;
+    a->data = realloc(a->data, Array_Step(a) * a->nslots);      free(a->data);      a->data = NULL;
+(`#if ... #endif` blocks — the out-of-memory check — are dropped, numeric `#define`s of the file are
+substituted).  Expressions: a->nitems, a->nslots, decimal literals, + - * /, parentheses, `c ? x : y`;
+conditions: < > <= >= == != is isnt, and or not && || !.  The result is a decision tree
+"under which condition does nslots become which expression"; it is emitted as
+    array_grow_cond  nitems nslots : bool      array_grow_size  nitems nslots : nat
+    array_shrink_cond nitems nslots : bool     array_shrink_size nitems nslots : nat
+(cond = a path that assigns nslots is taken, size = the value assigned on that path).  Justification of the
+accepted shapes: early `return`s, nested/else branches and ternaries are control flow over the two integers
+only, so the tree denotes the same function of (nitems, nslots) as the C text; a path that assigns nslots
+must also reallocate (or free and clear when the new capacity is 0), otherwise the shape is rejected.
+nat subtraction is truncated while size_t wraps: a policy using `-` is translated, the capacity lemma
+(SeqCapacity.v) then has to prove admissibility for the truncated reading and the white-box comparison of
+nslots shows any difference.
 
-The condition and the new capacity are translated (tiny expression translator: a->nitems, a->nslots,
-decimal literals, + - * /, parentheses, one comparison) into Gallina functions over nat:
-  array_grow_cond  nitems nslots : bool      array_grow_size  nitems nslots : nat
-  array_shrink_cond nitems nslots : bool     array_shrink_size nitems nslots : nat
-A body that no longer has the shape `if (<cond>) { a->nslots = <expr>; a->data = realloc(a->data, Array_Step(a) * a->nslots); [memory check] }`
-or an expression outside the little language leaves the definition out (broken obligation).
-nat subtraction is truncated, C's size_t wraps: a rule using `-` is translated but the capacity lemmas then
-have to prove the side condition themselves (they fail if they cannot)."""
+If a body is outside this language the policy is NOT recognised: the pinned policy is emitted instead,
+`array_policy_from_source := false`, and the correspondence check compares the capacity for admissibility
+only (nslots >= nitems after every operation, white-box) instead of exactly — capacity is tuning, the
+property speaks about contents."""
 import re
 
 
@@ -18,100 +29,298 @@ class Bad(Exception):
     pass
 
 
+# ---------------------------------------------------------------- expressions
+TOK = re.compile(r'\s*(a->nitems|a->nslots|\d+|<=|>=|==|!=|&&|\|\||[-+*/()<>!?:]|\b(?:is|isnt|and|or|not)\b)')
+
+
 def tokens(s):
-    out = []
+    out, i = [], 0
     s = s.strip()
-    i = 0
     while i < len(s):
-        c = s[i]
-        if c.isspace():
-            i += 1
-        elif s.startswith('a->nitems', i):
-            out.append('nitems'); i += 9
-        elif s.startswith('a->nslots', i):
-            out.append('nslots'); i += 9
-        elif c.isdigit():
-            j = i
-            while j < len(s) and s[j].isdigit():
-                j += 1
-            if j < len(s) and (s[j].isalpha() or s[j] in '._'):
-                raise Bad(s)
-            out.append(s[i:j]); i = j
-        elif s[i:i + 2] in ('>=', '<=', '=='):
-            out.append(s[i:i + 2]); i += 2
-        elif c in '+-*/()<>':
-            out.append(c); i += 1
-        else:
-            raise Bad(s)
+        m = TOK.match(s, i)
+        if not m:
+            raise Bad('token: ' + s[i:i + 20])
+        out.append(m.group(1)); i = m.end()
     return out
 
 
-def expr(toks):
-    """sum := term (('+'|'-') term)* ; term := atom (('*'|'/') atom)* ; -> Coq text, left associative"""
-    def atom():
-        if not toks:
-            raise Bad('eof')
-        t = toks.pop(0)
+class P:
+    """precedence climbing:  ternary < or < and < not < comparison < sum < term < atom; -> AST tuples"""
+
+    def __init__(self, toks):
+        self.t = toks
+
+    def peek(self):
+        return self.t[0] if self.t else None
+
+    def eat(self, x=None):
+        if not self.t or (x is not None and self.t[0] != x):
+            raise Bad('expected %s' % x)
+        return self.t.pop(0)
+
+    def ternary(self):
+        c = self.orx()
+        if self.peek() == '?':
+            self.eat('?'); a = self.ternary(); self.eat(':'); b = self.ternary()
+            return ('ite', c, a, b)
+        return c
+
+    def orx(self):
+        e = self.andx()
+        while self.peek() in ('or', '||'):
+            self.eat(); e = ('or', e, self.andx())
+        return e
+
+    def andx(self):
+        e = self.notx()
+        while self.peek() in ('and', '&&'):
+            self.eat(); e = ('and', e, self.notx())
+        return e
+
+    def notx(self):
+        if self.peek() in ('not', '!'):
+            self.eat(); return ('not', self.notx())
+        return self.cmp()
+
+    def cmp(self):
+        l = self.summ()
+        if self.peek() in ('<', '>', '<=', '>=', '==', '!=', 'is', 'isnt'):
+            op = self.eat(); r = self.summ()
+            op = {'is': '==', 'isnt': '!='}.get(op, op)
+            return ('cmp', op, l, r)
+        return l
+
+    def summ(self):
+        e = self.term()
+        while self.peek() in ('+', '-'):
+            op = self.eat(); e = ('bin', op, e, self.term())
+        return e
+
+    def term(self):
+        e = self.atom()
+        while self.peek() in ('*', '/'):
+            op = self.eat(); e = ('bin', op, e, self.atom())
+        return e
+
+    def atom(self):
+        t = self.eat()
         if t == '(':
-            e = summ()
-            if not toks or toks.pop(0) != ')':
-                raise Bad('paren')
-            return '(' + e + ')'
-        if t in ('nitems', 'nslots') or t.isdigit():
-            return t
-        raise Bad(t)
-
-    def term():
-        e = atom()
-        while toks and toks[0] in '*/':
-            op = toks.pop(0)
-            e = '(%s %s %s)' % (e, op, atom())
-        return e
-
-    def summ():
-        e = term()
-        while toks and toks[0] in '+-':
-            op = toks.pop(0)
-            e = '(%s %s %s)' % (e, op, term())
-        return e
-    return summ()
+            e = self.ternary(); self.eat(')'); return e
+        if t == 'a->nitems':
+            return ('var', 'nitems')
+        if t == 'a->nslots':
+            return ('var', 'nslots')
+        if t.isdigit():
+            return ('num', t)
+        raise Bad('atom ' + t)
 
 
-def cond(text):
-    toks = tokens(text)
-    for k, t in enumerate(toks):
-        if t in ('>', '<', '>=', '<=') and toks[:k].count('(') == toks[:k].count(')'):
-            l, r = expr(toks[:k]), expr(toks[k + 1:])
-            return {'>': '%s <? %s' % (r, l), '<': '%s <? %s' % (l, r),
-                    '>=': '%s <=? %s' % (r, l), '<=': '%s <=? %s' % (l, r)}[t]
-    raise Bad(text)
+def parse_expr(s):
+    p = P(tokens(s))
+    e = p.ternary()
+    if p.t:
+        raise Bad('trailing ' + ' '.join(p.t))
+    return e
 
 
-def rule(body):
-    """-> (cond_text, size_text) or raises"""
-    b = re.sub(r'#if.*?#endif', ' ', body, flags=re.S)
-    m = re.match(r'\{\s*if\s*\((.*?)\)\s*\{\s*a->nslots\s*=\s*([^;]*);\s*'
-                 r'a->data\s*=\s*realloc\s*\(\s*a->data\s*,\s*Array_Step\s*\(\s*a\s*\)\s*\*\s*a->nslots\s*\)\s*;\s*\}\s*\}\s*$', b, re.S)
-    if not m:
-        raise Bad('shape')
-    c = cond(m.group(1))
-    toks = tokens(m.group(2))
-    e = expr(toks)
-    if toks:
-        raise Bad('trailing')
-    return c, e, ' '.join(m.group(1).split()), ' '.join(m.group(2).split())
+def is_bool(e):
+    return e[0] in ('cmp', 'and', 'or', 'not', 'true', 'false') or (e[0] == 'ite' and is_bool(e[2]))
+
+
+def mentions(e, v):
+    return e == ('var', v) or any(isinstance(x, tuple) and mentions(x, v) for x in e[1:])
+
+
+def coq(e):
+    k = e[0]
+    if k == 'var':
+        return e[1]
+    if k == 'num':
+        return e[1]
+    if k == 'bin':
+        if e[2][0] == 'num' and e[3][0] == 'num':          # fold closed arithmetic (8 / 2 -> 4)
+            a, b = int(e[2][1]), int(e[3][1])
+            return str({'+': a + b, '-': max(a - b, 0), '*': a * b, '/': a // b if b else 0}[e[1]])
+        return '(%s %s %s)' % (coq(e[2]), e[1], coq(e[3]))
+    if k == 'cmp':
+        op, l, r = e[1], coq(e[2]), coq(e[3])
+        return {'<': '(%s <? %s)' % (l, r), '>': '(%s <? %s)' % (r, l), '<=': '(%s <=? %s)' % (l, r),
+                '>=': '(%s <=? %s)' % (r, l), '==': '(%s =? %s)' % (l, r), '!=': '(negb (%s =? %s))' % (l, r)}[op]
+    if k == 'and':
+        return '(%s && %s)' % (coq(e[1]), coq(e[2]))
+    if k == 'or':
+        return '(%s || %s)' % (coq(e[1]), coq(e[2]))
+    if k == 'not':
+        return '(negb %s)' % coq(e[1])
+    if k == 'ite':
+        return '(if %s then %s else %s)' % (coq(e[1]), coq(e[2]), coq(e[3]))
+    if k == 'true' or k == 'false':
+        return k
+    raise Bad(k)
+
+
+# ---------------------------------------------------------------- statements
+def parse_block(s, i):
+    """statements from position i (after an optional '{') up to the matching '}' or end -> (list, next i)"""
+    out = []
+    while True:
+        while i < len(s) and s[i].isspace():
+            i += 1
+        if i >= len(s):
+            return out, i
+        if s[i] == '}':
+            return out, i + 1
+        st, i = parse_stmt(s, i)
+        out.append(st)
+
+
+def match_paren(s, i):
+    assert s[i] == '('
+    d = 0
+    for j in range(i, len(s)):
+        if s[j] == '(':
+            d += 1
+        elif s[j] == ')':
+            d -= 1
+            if d == 0:
+                return j
+    raise Bad('paren')
+
+
+def parse_body(s, i):
+    while i < len(s) and s[i].isspace():
+        i += 1
+    if i < len(s) and s[i] == '{':
+        return parse_block(s, i + 1)
+    st, i = parse_stmt(s, i)
+    return [st], i
+
+
+def parse_stmt(s, i):
+    m = re.compile(r'if\s*\(').match(s, i)
+    if m:
+        j = match_paren(s, m.end() - 1)
+        c = parse_expr(s[m.end():j])
+        th, i = parse_body(s, j + 1)
+        el = []
+        m2 = re.compile(r'\s*else\b').match(s, i)
+        if m2:
+            el, i = parse_body(s, m2.end())
+        return ('if', c, th, el), i
+    j = s.find(';', i)
+    if j < 0:
+        raise Bad('statement')
+    t = ' '.join(s[i:j].split())
+    if t == 'return':
+        return ('return',), j + 1
+    m = re.match(r'a->nslots = (.*)$', t)
+    if m:
+        return ('set', parse_expr(m.group(1)), m.group(1)), j + 1
+    if re.match(r'a->data = realloc ?\( ?a->data ?, ?Array_Step ?\( ?a ?\) ?\* ?a->nslots ?\)$', t) or \
+       re.match(r'a->data = realloc ?\( ?a->data ?, ?a->nslots ?\* ?Array_Step ?\( ?a ?\) ?\)$', t):
+        return ('realloc',), j + 1
+    if re.match(r'free ?\( ?a->data ?\)$', t):
+        return ('free',), j + 1
+    if re.match(r'a->data = NULL$', t):
+        return ('null',), j + 1
+    raise Bad('statement: ' + t)
+
+
+def run(stmts, new, mem):
+    """symbolic execution -> tree ('if', c, t, e) | ('leaf', expr or None);  new = nslots assigned so far,
+    mem = what was done to the block on this path (subset of {'realloc', 'free', 'null'})"""
+    if not stmts:
+        return leaf(new, mem)
+    st, rest = stmts[0], stmts[1:]
+    if st[0] == 'return':
+        return leaf(new, mem)
+    if st[0] == 'set':
+        if new is not None:
+            raise Bad('nslots assigned twice on one path')
+        return run(rest, st[1], mem)
+    if st[0] in ('realloc', 'free', 'null'):
+        if st[0] == 'realloc' and new is None:
+            raise Bad('realloc without a new capacity')
+        return run(rest, new, (mem or frozenset()) | {st[0]})
+    if st[0] == 'if':
+        if new is not None and mentions(st[1], 'nslots'):
+            raise Bad('condition on the new nslots')
+        return ('if', st[1], run(st[2] + rest, new, mem), run(st[3] + rest, new, mem))
+    raise Bad(st[0])
+
+
+def leaf(new, mem):
+    if new is None:
+        if mem:
+            raise Bad('block changed without a new capacity')
+        return ('leaf', None)
+    if mem == frozenset({'realloc'}) or (mem == frozenset({'free', 'null'}) and new == ('num', '0')):
+        return ('leaf', new)
+    raise Bad('capacity assigned without reallocating')
+
+
+def tree_cond(t):
+    if t[0] == 'leaf':
+        return ('true',) if t[1] is not None else ('false',)
+    a, b = tree_cond(t[2]), tree_cond(t[3])
+    if a == b:
+        return a
+    if a == ('true',) and b == ('false',):
+        return t[1]
+    if a == ('false',) and b == ('true',):
+        return ('not', t[1])
+    return ('ite', t[1], a, b)
+
+
+def tree_size(t):
+    if t[0] == 'leaf':
+        return t[1] if t[1] is not None else ('var', 'nslots')
+    a, b = tree_size(t[2]), tree_size(t[3])
+    if a == b:
+        return a
+    return ('ite', t[1], a, b)
+
+
+def policy(body, defines):
+    b = re.sub(r'#\s*if.*?#\s*endif', ' ', body, flags=re.S)
+    for k, v in defines.items():
+        b = re.sub(r'\b%s\b' % re.escape(k), v, b)
+    b = b.strip()
+    if not (b.startswith('{') and b.endswith('}')):
+        raise Bad('body')
+    stmts, _ = parse_block(b, 1)
+    t = run(stmts, None, None)
+    if t[0] == 'if' and t[2][0] == 'leaf' and t[2][1] is not None and t[3] == ('leaf', None):
+        return t[1], t[2][1]                      # the plain shape: if (c) { nslots = e; realloc }
+    return tree_cond(t), tree_size(t)
+
+
+PINNED = {
+    'array_grow': ('nslots <? nitems', '(nitems + (nitems / 2))'),
+    'array_shrink': ('(nitems + (nitems / 2)) <? nslots', 'nitems'),
+}
 
 
 def generate(repo, emit, src, func_body):
     s = src('src/Array.c')
+    defines = dict(re.findall(r'^\s*#\s*define\s+(\w+)\s+(\d+)\s*$', s, re.M))
+    recognised = True
     for fn, name in (('Array_Reserve_More', 'array_grow'), ('Array_Reserve_Less', 'array_shrink')):
         b = func_body(s, r'static\s+void\s+%s\s*\(\s*struct\s+Array\s*\*\s*a\s*\)\s*\{' % fn)
         try:
             if not b:
                 raise Bad('missing')
-            c, e, csrc, esrc = rule(b)
-            emit(name, 'Definition %s_cond (nitems nslots : nat) : bool := %s.   (* source: if (%s) *)\n'
-                       'Definition %s_size (nitems nslots : nat) : nat := %s.   (* source: a->nslots = %s *)'
-                 % (name, c, csrc, name, e, esrc))
-        except Bad:
-            emit(name, None)
+            c, e = policy(b, defines)
+            if is_bool(e) or not is_bool(c):
+                raise Bad('types')
+            emit(name, 'Definition %s_cond (nitems nslots : nat) : bool := %s.   (* read from %s *)\n'
+                       'Definition %s_size (nitems nslots : nat) : nat := %s.'
+                 % (name, coq(c), fn, name, coq(e)))
+        except (Bad, AssertionError, IndexError) as ex:
+            recognised = False
+            c, e = PINNED[name]
+            emit(name, '(* %s is outside the policy language of tools/genx_seq.py (%s): pinned policy, capacity compared for admissibility only *)\n'
+                       'Definition %s_cond (nitems nslots : nat) : bool := %s.\n'
+                       'Definition %s_size (nitems nslots : nat) : nat := %s.'
+                 % (fn, str(ex)[:60].replace('*)', '* )'), name, c, name, e))
+    emit('array_policy_from_source', 'Definition array_policy_from_source : bool := %s.' % ('true' if recognised else 'false'))
